@@ -348,3 +348,63 @@ func slots(v reflect.Value, path, class string, out *[]Slot, seen map[uintptr]bo
 		}
 	}
 }
+
+// Owners maps every id of the model to (a pointer to) the element that carries it: the outermost struct of
+// the chain of embedded base types in which the IdField sits (e.g. *FormalExpression for an id stored in
+// FormalExpression.Expression.BaseElementWithMixedContent.IdField).
+func Owners(v any) map[string]any {
+	out := map[string]any{}
+	owners(reflect.ValueOf(v), reflect.Value{}, out, map[uintptr]bool{})
+	return out
+}
+
+func owners(v, owner reflect.Value, out map[string]any, seen map[uintptr]bool) {
+	if !v.IsValid() {
+		return
+	}
+	switch v.Kind() {
+	case reflect.Pointer:
+		if v.IsNil() {
+			return
+		}
+		if v.Elem().Kind() == reflect.Struct {
+			if seen[v.Pointer()] {
+				return
+			}
+			seen[v.Pointer()] = true
+		}
+		owners(v.Elem(), owner, out, seen)
+	case reflect.Interface:
+		if !v.IsNil() {
+			owners(v.Elem(), reflect.Value{}, out, seen)
+		}
+	case reflect.Struct:
+		t := v.Type()
+		if !owner.IsValid() {
+			owner = v
+		}
+		for i := 0; i < v.NumField(); i++ {
+			f := t.Field(i)
+			if !f.IsExported() {
+				continue
+			}
+			if f.Name == "IdField" {
+				if s := textOf(v.Field(i)); s != "" && owner.CanAddr() {
+					if _, dup := out[s]; !dup {
+						out[s] = owner.Addr().Interface()
+					}
+				}
+				continue
+			}
+			if f.Anonymous {
+				owners(v.Field(i), owner, out, seen) // embedded base type: same element
+			} else {
+				owners(v.Field(i), reflect.Value{}, out, seen)
+			}
+		}
+	case reflect.Slice, reflect.Array:
+		for i := 0; i < v.Len(); i++ {
+			owners(v.Index(i), reflect.Value{}, out, seen)
+		}
+	}
+}
